@@ -289,6 +289,8 @@ class Orchestrator:  # thailint: ignore[srp]
             # load_config handles pyproject.toml fallback internally
             self.config = self.config_loader.load(config_path)
 
+        self.ignore_parser.use_config_ignores(self.config)
+
     def lint_file(self, file_path: Path) -> list[Violation]:
         """Lint a single file.
 
